@@ -377,6 +377,12 @@ def build(S):
     frame_obligations(S)
     globals_obligations(S)
     class_state_obligations(S)
+    # the inputs embedded in the file are the MESH's options: they regenerate the grid only if the mesh
+    # was made to agree with the equilibrium on every shared option, omitted ones included
+    from . import C12
+
+    S.under_contract(C12.FN_M)
+    C12.option_consistency_classes(S)
     native_frame(S)
 
 
